@@ -77,4 +77,11 @@ def taskproc(task: Task) -> Result:
         result.outcome = task.pickable(outcome)
     result.linecount = getattr(outcome, 'linecount', 0)
     result.memory = memory_use()
-    return result
+    try:
+        return result
+    finally:
+        # NOTE: break the cycle result -> exception -> traceback -> this frame -> result.
+        #   It would keep the task and its proxy of the stop event alive until some
+        #   later garbage collection, and a proxy finalized in the middle of another
+        #   task's stop.is_set() closes the connection that call is using
+        del result, task
